@@ -14,6 +14,7 @@ class Rules:
         self.EVENS = z3.Function("EVENS", SeqV, SeqV)
         self.ODDS = z3.Function("ODDS", SeqV, SeqV)
         self.apreds = {}
+        self.generators = []   # sidecar-supplied ground-instance generators: f(rules, exprs) -> [z3 Bool]
         self.preds = {}     # name -> (Function SeqV->Bool, elem predicate python callable(Val term)->Bool) : "all elements satisfy"
 
     def INT2STR(self, t):
@@ -72,6 +73,8 @@ class Rules:
         out += self.nth_of_concat(exprs)
         out += self.array_instances(exprs)
         out += self.prefix_extension(exprs)
+        for g in self.generators:
+            out += g(self, exprs)
         # every predicate is unfolded on every structured sequence term of the VC (congruence then carries it across equalities)
         seeds = []
         for t in self.subterms(exprs):
